@@ -267,9 +267,20 @@ class SourceFile:
         else:
             want = _squash(scope)
             blocks = [b for b in self.impl_blocks() if b[0] == want]
-            if len(blocks) != 1:
-                raise KeyError("%s: expected exactly one `%s`, found %d (have: %s)" % (
-                    self.path, scope, len(blocks), [b[0] for b in self.impl_blocks()]))
+            if len(blocks) < 1:
+                raise KeyError("%s: expected an `%s` block, found none (have: %s)" % (
+                    self.path, scope, [b[0] for b in self.impl_blocks()]))
+            if len(blocks) > 1:
+                # several blocks with the same header: the function must be in exactly one of them
+                owners = []
+                for b in blocks:
+                    wd = depth[b[2]] + 1
+                    if any(toks[i].kind == "id" and toks[i].text == "fn" and toks[i + 1].text == name and depth[i] == wd
+                           for i in range(b[2] + 1, b[3] - 1)):
+                        owners.append(b)
+                if len(owners) != 1:
+                    raise KeyError("%s: fn `%s` found in %d of the %d `%s` blocks" % (self.path, name, len(owners), len(blocks), scope))
+                blocks = owners
             _, _, ob, cb = blocks[0]
             lo, hi, want_depth = ob + 1, cb, depth[ob] + 1
         hits = []
